@@ -1,18 +1,15 @@
+\* Negative control: the pipeline advances its position when Accept fails.  TLC MUST report InvNoGapEver.
 SPECIFICATION Spec
 CONSTANTS
-  MaxLogs = 4
+  MaxLogs = 2
   PageSizes = {1, 2}
-  MaxFail = 2
+  MaxFail = 1
   MaxStops = 1
   MaxResets = 1
   MaxRestarts = 1
   JoinSubscriber = FALSE
-  Mutant = "none"
+  Mutant = "AdvanceOnFail"
   LateAccepts = FALSE
   RecordHist = FALSE
 INVARIANTS
- TypeOK
- InvBatchContiguous
- InvPersistedLeAcked
- InvLastLeAcked
- InvNoGapEver
+  InvNoGapEver
